@@ -208,4 +208,6 @@ def op_sites(F, body, pred, depth=3):
 
 def frame_op(name):
     """Predicate: the Frame arithmetic-assignment operator `name` (add_assign, mul_assign ...)."""
-    return lambda p, t: p.endswith('::' + name) and 'frame::Frame' in p
+    # `a += b` and `a = a + b` are the same operation on a Frame (the *Assign impls do what the binary operators do)
+    names = (name, name[:-7]) if name.endswith('_assign') else (name,)
+    return lambda p, t: p.split('::')[-1] in names and 'frame::Frame' in p
